@@ -619,6 +619,19 @@ ABS_FORMS = {
     'objects-of-sources-below-tilde-directory':
         "default(object_files(['sub/~/foo.c'], directory='sub/objs'))\n"
         "default(executable('prog', files=['main.c']))\n",
+    # ... and a TOP-level directory of that name, addressed as './~' (a bare leading '~' typed
+    # in a script means the home directory by design)
+    'object-file-of-source-below-top-level-tilde-directory':
+        "default(object_file(file='./~/foo.c'))\n"
+        "default(executable('prog', files=['main.c']))\n",
+    'pch-of-header-below-top-level-tilde-directory':
+        "executable('prog', files=['main.c'], pch='./~/pre.h')\n",
+    'sources-below-top-level-tilde-directory-no-intermediate-dirs':
+        "project('p', intermediate_dirs=False)\n"
+        "executable('prog', files=['main.c', './~/foo.c'])\n",
+    'copy-of-file-below-top-level-tilde-directory':
+        "default(copy_file(file='./~/note.txt'))\n"
+        "default(executable('prog', files=['main.c']))\n",
     'copies-of-files-below-tilde-directory':
         "default(copy_files(['sub/~/note.txt'], directory='sub/out'))\n"
         "default(executable('prog', files=['main.c']))\n",
@@ -636,7 +649,9 @@ def run_abs(case, res):
         proj.write_tree(src, {'build.bfg': text, 'main.c': 'int main(void){return 0;}\n',
                               'sub/foo.c': 'int foo;\n', 'sub/pre.h': '#define PRE 1\n',
                               'sub/main.c': 'int main(void){return 0;}\n',
-                              'sub/~/foo.c': 'int foo;\n', 'sub/~/note.txt': 'n\n'})
+                              'sub/~/foo.c': 'int foo;\n', 'sub/~/note.txt': 'n\n',
+                              '~/foo.c': 'int foo;\n', '~/note.txt': 'n\n',
+                              '~/pre.h': '#define PRE 1\n'})
         proj.write_tree(ext, {'foo.c': 'int foo;\n', 'data.txt': 'd\n',
                               'pre.h': '#define PRE 1\n'})
         os.makedirs(os.path.join(root, 'home'))
